@@ -70,6 +70,8 @@ func propC08(c *Ctx) propInfo {
 	c.nilFuncCalls("tlb", "tl", "boc")
 	c.nilContradictions("E1.P8-nil-contradiction", "tlb", "tl", "boc", "liteclient", "liteapi", "ton")
 	c.errflow(excE2, "tlb", "tl", "code", "boc")
+	c.errflow(excLiteapiE2, "liteapi")
+	c.guardPolarity("liteapi")
 	c.bufferSizing() // the bounds proofs of the bit-level readers/writers lean on 8*len(buf) >= cap
 	c.floor("E1.P2-bounds", 250)
 	c.floor("E1.P4-alloc", 9)
@@ -155,3 +157,5 @@ var excE2 = map[string]string{
 	"(tlb.VmStackValue).Unmarshal R-drop tlb.toInt#2":                  "guarded by the kind range test reflect.Int..reflect.Uint64 just above, which is exactly the set of kinds toInt accepts",
 	"tlb.compareWithSumTag R-drop boc.Cell.Skip":                       "explicit '_ =': the same number of bits was just picked successfully (PickUint) from the same position",
 }
+
+var excLiteapiE2 = map[string]string{}
